@@ -127,6 +127,7 @@ class SimSlurm:
         self.attempt = {}  # job name -> number of finished runs (for per-attempt exit codes)
         self.sbatch_count = 0
         self.cmd_log = []
+        self.refused = {}
 
     # ----------------------------------------------------------------- state for caching
     def state_repr(self):
@@ -207,9 +208,13 @@ class SimSlurm:
         with raw():
             info = self._parse_submission(script)
         self.sbatch_count += 1
-        if alt in ("fail", "fail-all"):
-            w.emit("sbatch", vp=vp, accepted=False, **info)
-            return 1, b"", b"sbatch: error: Batch job submission failed: Socket timed out\n"
+        if alt in ("fail", "fail-all") or (os.path.basename(script) in w.scen.get("refuse_scripts", ())
+                                           and not w.data.get("epoch")):
+            # a clean refusal (the scheduler did not accept the job); scripted by the scenario or a fault
+            if not self.refused.get(script):
+                self.refused[script] = True
+                w.emit("sbatch", vp=vp, accepted=False, **info)
+            return 1, b"", b"sbatch: error: Batch job submission failed: Invalid account\n"
         if alt == "garbled":
             w.emit("sbatch", vp=vp, accepted=False, **info)
             return 0, b"sbatch: queued\n", b""
